@@ -67,8 +67,9 @@ struct MemcheckScope
         {
             char key[160];
             snprintf(key, sizeof key, "memcheck:error-inside:%s:%s", routine, blank ? "blank-line" : "line");
-            vf::fail(key, "valgrind memcheck reported %u error(s) during %s(\"%s\") (see stderr.txt of the unit)", now - before, routine,
-                     show(line).c_str());
+            // not thrown: the remaining dispatchers of the case are still exercised
+            vf::fail_nothrow(key, "valgrind memcheck reported %u error(s) during %s(\"%s\") (see stderr.txt of the unit)", now - before,
+                             routine, show(line).c_str());
         }
         VF_OK("memcheck silent during the dispatcher call");
     }
